@@ -17,6 +17,7 @@ Your task: make ONE small, realistic source change to the project (the kind of b
  (1) the project still compiles,
  (2) the existing test suite still passes completely (run it and confirm),
  (3) the property above is now violated, but only under something specific — a particular input shape, attribute value, sequence of calls, configuration, or two cooperating code sites that each look fine alone. It must NOT be something that ordinary everyday documents would expose immediately.
+Do NOT use `git stash` (the stash is shared between all worktrees of this repository and other people are working in parallel); to take your change out and put it back use `git diff > /tmp/wt/{pid}-out/patch.diff; git apply -R /tmp/wt/{pid}-out/patch.diff; … ; git apply /tmp/wt/{pid}-out/patch.diff`.
 Files in the tree named verif_*.go and calls `verifYield(...)` are build-tag-guarded test hooks; do not change or rely on them.
 
 Deliverables in /tmp/wt/{pid}-out/:
